@@ -114,7 +114,7 @@ def _function_over_one_var(repr_func, raw_func, x, out=None, out_like=None, sizi
         if not out_like.signed and signed:
             raise ValueError('Signed addition can not be stored in unsigned `out_like` object!')
         signed = None
-        n_frac = None
+        n_frac = out_like.n_frac    # (the raw calculation is done with the fractional size of the result, like for `out`)
         n_int = None
         config = None
     
@@ -166,7 +166,7 @@ def _function_over_two_vars(repr_func, raw_func, x, y, out=None, out_like=None, 
         if not out_like.signed and signed:
             raise ValueError('Signed addition can not be stored in unsigned `out_like` object!')
         signed = None
-        n_frac = None
+        n_frac = out_like.n_frac    # (the raw calculation is done with the fractional size of the result, like for `out`)
         n_int = None
         config = None
 
